@@ -116,6 +116,41 @@ def itNext (ver : Nat) (it : Iter) : Iter :=
   | none => it
   | some (k, _) => itNextLoop ver k it.pos it.b
 
+/-! ### proofs for iteration and prefix requests (the other two `ReadSyncer` methods) -/
+
+def itAdvance (ver : Nat) : Nat → Iter → Iter
+  | 0, it => it
+  | n + 1, it => if it.cur.isSome then itAdvance ver n (itNext ver it) else it
+
+/-- `SyncIterate` (iterator.go:14): seek, then `prefetch` times `Next` while valid. -/
+def proofIterate (eh : Bytes) (ver : Nat) (key : Bytes) (prefetch : Nat) (root : HTrie) : MProof :=
+  let it := itAdvance ver prefetch (itSeek ver root key {})
+  build eh ver it.b.incl root
+
+def isPrefixB : Bytes → Bytes → Bool
+  | [], _ => true
+  | _ :: _, [] => false
+  | a :: as, b :: bs => a == b && isPrefixB as bs
+
+/-- The inner loop of `SyncGetPrefixes` (prefetch.go:99-107); returns the iterator, the running total
+and whether the limit stopped the whole request. -/
+def prefixInner (ver : Nat) (limit : Nat) (pfx : Bytes) : Nat → Iter → Nat → Iter × Nat × Bool
+  | 0, it, total => (it, total, false)
+  | n + 1, it, total =>
+    match it.cur with
+    | none => (it, total, false)
+    | some (k, _) =>
+      if total ≥ limit then (it, total, true)
+      else if !isPrefixB pfx k then (it, total, false)
+      else prefixInner ver limit pfx n (itNext ver it) (total + 1)
+
+def prefixOuter (ver : Nat) (limit : Nat) (root : HTrie) (fuel : Nat) : List Bytes → Builder → Nat → Builder
+  | [], b, _ => b
+  | pfx :: rest, b, total =>
+    let it := itSeek ver root pfx b
+    let r := prefixInner ver limit pfx fuel it total
+    if r.2.2 then r.1.b else prefixOuter ver limit root fuel rest r.1.b r.2.1
+
 /-! ### the sequential chunker -/
 
 /-- Number of stored keys: the fuel of the loops below (they advance by one key per step). -/
@@ -123,6 +158,10 @@ def HTrie.count : HTrie → Nat
   | .nil => 0
   | .leaf _ _ _ => 1
   | .node _ _ lf _ l r => (if lf.isSome then 1 else 0) + l.count + r.count
+
+/-- `SyncGetPrefixes` (prefetch.go:55): one iterator (one builder) over all prefixes. -/
+def proofPrefixes (eh : Bytes) (ver : Nat) (prefixes : List Bytes) (limit : Nat) (root : HTrie) : MProof :=
+  build eh ver (prefixOuter ver limit root (root.count + 1) prefixes {} 0).incl root
 
 /-- `for it.Seek(offset); it.Valid() && Size() < chunkSize; it.Next() {}` -/
 def seqFill (chunkSize : Nat) : Nat → Iter → Iter
@@ -221,13 +260,27 @@ def HTrie.nodes : HTrie → Nat
   | .leaf _ _ _ => 1
   | .node _ _ lf _ l r => 1 + (if lf.isSome then 1 else 0) + l.nodes + r.nodes
 
-/-- `subtree.nextChunk`: the chunk's entries and the subtree afterwards (trimmed). -/
-def nextChunk (eh : Bytes) (chunkSize : Nat) (root : HTrie) (s : Subtree) : List (Option Bytes) × Subtree :=
+/-- `subtree.nextChunk` with explicit loop fuel: the chunk's entries and the subtree afterwards (trimmed). -/
+def nextChunkF (fuel : Nat) (eh : Bytes) (chunkSize : Nat) (root : HTrie) (s : Subtree) :
+    List (Option Bytes) × Subtree :=
   let b0 : Builder := s.path.foldl (fun b n => b.includeH 0 n) {}
   -- Go includes `pending` from the bottom of the stack to the top
   let b1 : Builder := s.pending.reverse.foldl (fun b pa => b.includeH 0 pa.nd) b0
-  let r := nextChunkLoop chunkSize (4 * root.nodes + 8) s.pending b1 false
+  let r := nextChunkLoop chunkSize fuel s.pending b1 false
   ((build eh 0 r.2.incl root).entries, { s with pending := trim r.1 })
+
+/-- The fuel of all work loops of the parallel chunker (shown sufficient in
+OasisProofs/Helpers/MkvsChunkTerm.lean: more fuel never changes the result). -/
+def parFuel (root : HTrie) : Nat := 4 * root.nodes + 8
+
+def nextChunk (eh : Bytes) (chunkSize : Nat) (root : HTrie) (s : Subtree) : List (Option Bytes) × Subtree :=
+  nextChunkF (parFuel root) eh chunkSize root s
+
+/-- `addTask` of `split` (subtree.go:225): a nil child gives no task. -/
+def childTask (path : List HTrie) (parent child : HTrie) : List Subtree :=
+  match child with
+  | .nil => []
+  | c => [{ path := path ++ [parent], pending := [⟨c, .before⟩] }]
 
 /-- `subtree.split` (subtree.go:211): 0, 1 or 2 tasks. `pending.getLast` is Go's `pending[0]`. -/
 def splitSub (s : Subtree) : List Subtree :=
@@ -236,10 +289,7 @@ def splitSub (s : Subtree) : List Subtree :=
   | subroot :: above =>          -- `above` = pending[1:], bottom to top
     match subroot.nd with
     | .node _ _ _ _ l r =>
-      let mk (child : HTrie) : List Subtree :=
-        match child with
-        | .nil => []
-        | c => [{ path := s.path ++ [subroot.nd], pending := [⟨c, .before⟩] }]
+      let mk (child : HTrie) : List Subtree := childTask s.path subroot.nd child
       match subroot.st with
       | .before | .at =>
         if isNilH l && isNilH r then [s] else mk l ++ mk r
@@ -266,22 +316,29 @@ def splitTasksN (threads : Nat) : Nat → List Subtree → List Subtree
 def splitTasks (threads : Nat) (tasks : List Subtree) : List Subtree := splitTasksN threads 10 tasks
 
 /-- `createChunks` + `filterFinished` for one round. -/
-def parRound (eh : Bytes) (chunkSize : Nat) (root : HTrie) (tasks : List Subtree) :
+def parRoundF (fuel : Nat) (eh : Bytes) (chunkSize : Nat) (root : HTrie) (tasks : List Subtree) :
     List (List (Option Bytes)) × List Subtree :=
-  let rs := tasks.map (nextChunk eh chunkSize root)
+  let rs := tasks.map (nextChunkF fuel eh chunkSize root)
   (rs.map (·.1), (rs.map (·.2)).filter (fun s => !s.pending.isEmpty))
 
-def parLoop (eh : Bytes) (chunkSize threads : Nat) (root : HTrie) : Nat → List Subtree → List (List (Option Bytes))
+def parLoopF (fuel : Nat) (eh : Bytes) (chunkSize threads : Nat) (root : HTrie) :
+    Nat → List Subtree → List (List (Option Bytes))
   | 0, _ => []
   | n + 1, pending =>
     if pending.isEmpty then [] else
     let tasks := splitTasks threads pending
-    let r := parRound eh chunkSize root tasks
-    r.1 ++ parLoop eh chunkSize threads root n r.2
+    let r := parRoundF fuel eh chunkSize root tasks
+    r.1 ++ parLoopF fuel eh chunkSize threads root n r.2
+
+def parRound (eh : Bytes) (chunkSize : Nat) (root : HTrie) (tasks : List Subtree) :
+    List (List (Option Bytes)) × List Subtree := parRoundF (parFuel root) eh chunkSize root tasks
+
+def parLoop (eh : Bytes) (chunkSize threads : Nat) (root : HTrie) : Nat → List Subtree → List (List (Option Bytes)) :=
+  parLoopF (parFuel root) eh chunkSize threads root
 
 /-- `parallelChunker.chunk` (chunk.go:161). -/
 def parChunks (eh : Bytes) (chunkSize threads : Nat) (root : HTrie) : List (List (Option Bytes)) :=
-  parLoop eh chunkSize threads root (4 * root.nodes + 8) [newSubtree root]
+  parLoop eh chunkSize threads root (parFuel root) [newSubtree root]
 
 /-! ### restoring -/
 
